@@ -75,9 +75,44 @@ def dynamic_class_facts(src_root):
     return facts
 
 
+def fold_handlers(src_root):
+    """every `except` clause inside the constant-folding entry points of nodes.py (the as_const
+    methods and args_as_const): the class it catches and whether its body raises Impossible.  Folding
+    runs arbitrary operators / filters on constants while the template is loaded, so whatever they
+    raise must be turned into Impossible (the expression is then compiled for evaluation at render
+    time)."""
+    tree = ast.parse(open(os.path.join(src_root, "jinja2", "nodes.py")).read())
+    out = []
+
+    class V(ast.NodeVisitor):
+        def __init__(self):
+            self.stack = []
+
+        def visit_ClassDef(self, n):
+            self.stack.append(n.name); self.generic_visit(n); self.stack.pop()
+
+        def visit_FunctionDef(self, n):
+            self.stack.append(n.name); self.generic_visit(n); self.stack.pop()
+
+        def visit_Try(self, n):
+            fn = ".".join(self.stack)
+            if self.stack and self.stack[-1] in ("as_const", "args_as_const"):
+                for h in n.handlers:
+                    ty = ast.unparse(h.type) if h.type is not None else "BaseException"
+                    imp = any(isinstance(x, ast.Raise) and x.exc is not None and
+                              ast.unparse(x.exc.func if isinstance(x.exc, ast.Call) else x.exc) in IMPOSSIBLE
+                              for x in h.body)
+                    out.append((fn, ty, imp))
+            self.generic_visit(n)
+
+    V().visit(tree)
+    return out
+
+
 def emit(src_root):
     ss = sites(src_root)
     facts = dynamic_class_facts(src_root)
+    fh = fold_handlers(src_root)
     lines = ["(* regenerated from %s/jinja2 by gen/c01_raises.py — do not edit *)" % src_root,
              "From Coq Require Import List String Bool.", "Import ListNotations.", "Open Scope string_scope.",
              "From JV Require Import Model.C01Raises.", "",
@@ -85,11 +120,18 @@ def emit(src_root):
     lines.append(";\n".join('  ("%s", "%s", %s)' % (f, fn, c) for f, fn, c in ss))
     lines.append("].")
     lines.append("Definition dyn_facts : list bool := [%s]." % "; ".join("true" if v else "false" for v in facts.values()))
+    lines.append("Definition fold_handlers : list (string * string * bool) := [")
+    lines.append(";\n".join('  ("%s", "%s", %s)' % (fn, ty.replace('"', "'"), "true" if imp else "false") for fn, ty, imp in fh))
+    lines.append("].")
     lines.append("")
     lines.append("(* obligation: every raise / assert site on the loading path raises a template syntax error, is")
-    lines.append("   engine-internal control flow caught by the engine, or is a listed internal guard *)")
-    lines.append("Theorem load_path_raises_only_syntax_errors : forallb site_ok sites = true /\\ forallb (fun b => b) dyn_facts = true.")
-    lines.append("Proof. split; vm_compute; reflexivity. Qed.")
+    lines.append("   engine-internal control flow caught by the engine, or is a listed internal")
+    lines.append("   guard; every handler in the constant-folding entry points catches Exception and raises Impossible,")
+    lines.append("   and the eight entry points that run operators, filters, tests, subscripts and attribute lookups on")
+    lines.append("   constants all have one *)")
+    lines.append("Theorem load_path_raises_only_syntax_errors : forallb site_ok sites = true /\\ forallb (fun b => b) dyn_facts = true /\\")
+    lines.append("  forallb fold_handler_ok fold_handlers = true /\\ forallb (fun f => existsb (fun h => String.eqb (fst (fst h)) f) fold_handlers) fold_entry_points = true.")
+    lines.append("Proof. repeat split; vm_compute; reflexivity. Qed.")
     lines.append("Print Assumptions load_path_raises_only_syntax_errors.")
     return "\n".join(lines) + "\n", ss
 
